@@ -27,7 +27,7 @@ def gen(ctx):
 
 
 def correspond(ctx):
-    n = 600 if ctx.thorough() else 60
+    n = 1500 if ctx.thorough() else 200
     c = vlib.correspond(ctx, 'c20', 'C20', ['episodes=%d' % n], timeout=1500)
     c['name'] = 'executors-vs-model'
     return [c]
